@@ -340,6 +340,46 @@ def rule_predicates(ck, facts):
             ck.bad(R, "pred|%s" % name, "Type::%s quantifies the elements of %s with %s while its other aggregate arms use `any`: an aggregate with one matching and one plain element is classified wrongly, so reference-count operations are not emitted for it" % (name, sorted(odd), sorted({x for q in odd.values() for x in q})), f.where())
 
 
+def rule_predicate_recursion(ck, facts, R="C12.predicates"):
+    """a deep predicate over Type must stay deep in every aggregate arm"""
+    lang = facts.crate(roles.LANG)
+    preds = [f for f in lang.fns if f.kind == "assoc" and f.short.startswith("types::Type::contains_") and f.local_ty(0) == "bool"]
+    adt = facts.adt(roles.TYPE)
+    nested = {v["n"] for v in adt["variants"] if any("TypeNodeId" in fld[1] or "RecordTypeField" in fld[1] for fld in v["f"])}
+    n = 0
+    for f in preds:
+        cov = cover.coverage(facts, f, roles.TYPE)
+        if not cov:
+            continue
+        name = f.short.split("::")[-1]
+        for v in sorted(cov.primary_handled()):
+            if v not in nested or cov.arm_target(v) is None or v in getattr(cov, "catchall", ()):
+                continue
+            region = reachable(f, cov.arm_target(v), stop=[cov.primary.block])
+            members = [(f, set(region))]
+            for b in region:
+                for st in f.stmts(b):
+                    if st[KIND] == "a" and st[5][0] == "agg" and st[5][1][0] == "closure":
+                        g = facts.fn(st[5][1][1])
+                        if g is not None:
+                            members.append((g, None))
+            callees = set()
+            for g, reg in members:
+                for b, t in g.calls():
+                    if reg is None or b in reg:
+                        callees.add(callee(t) or "")
+            if not any(c.startswith("mimium_lang::types::Type::") or "types::Type::" in c for c in callees):
+                continue  # the arm answers without looking at the element types (constant)
+            n += 1
+            key = "deep|%s|%s" % (name, v)
+            if f.path in callees:
+                ck.ok(R, key)
+            else:
+                other = sorted(c.split("::")[-1] for c in callees if "types::Type::" in c)
+                ck.bad(R, key, "Type::%s looks into the elements of a %s with %s instead of with itself: the predicate is deep for the other aggregates but only one level deep here, so a closure / boxed value nested below a %s is missed by the reference-count and escape handling that this predicate steers (and by the `self` admission test)" % (name, v, other, v), f.where())
+    ck.floor(R, "deep_predicate_arms", n, 6)
+
+
 def run(ck, facts, tier):
     from ..callgraph import CallGraph
 
@@ -350,4 +390,5 @@ def run(ck, facts, tier):
     rule_creation_registers(ck, facts)
     rule_walkers(ck, facts)
     rule_predicates(ck, facts)
+    rule_predicate_recursion(ck, facts)
     ck.not_decided("boundedness of live closures / heap objects over time on concrete programs; temporaries cloned by projections that are neither bound nor passed on")
